@@ -682,7 +682,7 @@ theorem finishVal_nobs (T : Tables) (hb : backslashOnly T = true) (st : St) (nam
       · exact ⟨h, rfl⟩
       · split
         · exact ⟨NoBs_append h (by intro c hc; simp at hc; omega), rfl⟩
-        · exact ⟨h, rfl⟩
+        · exact ⟨h, unicodeSub_id T hb found h⟩
     · exact ⟨h, rfl⟩
 
 /-- escape-free part of the step specification -/
